@@ -79,6 +79,24 @@ def run(ck: Checker, prog: Program, tier: str):
         ck.guard(_r4, ck, f, mask_var, pass_var)
     ck.guard(_r5_r6_sta, ck, prog)
     ck.guard(_r5_r6_max, ck, prog)
+    # the per-window statistics are compared with the thresholds in double precision: no buffer of reduced precision / integer type
+    from .c15 import FLOATISH
+    n_dt = 0
+    for fq in FUNCS:
+        f = prog.func(fq)
+        for c in calls_in(f.node):
+            dt = kwarg(c, "dtype")
+            if dt is None and call_name(c) == "astype" and c.args:
+                dt = c.args[0]
+            if dt is None:
+                continue
+            n_dt += 1
+            txt = unparse(dt)
+            if txt in FLOATISH or txt in ("bool", "np.bool_", "numpy.bool_"):
+                ck.ok("C13.R5", fq, f"{norm_key(c, 60)}: {txt}", nontrivial=False)
+            else:
+                ck.violation("C13.R5", fq, norm_key(c, 80), f"`{norm_key(c, 70)}` holds the per-window values as {txt}: a value just below the threshold is rounded onto it "
+                             f"(or truncated) and the window is rejected / kept wrongly", loc=f.loc(c))
     # "ends with accept masks equal to that selection": assigning a mask stores that mask
     from . import statscommon as _S
     ck.guard(_S.check_mask_properties, ck, prog, "C13.R3")
